@@ -664,20 +664,20 @@ func c06Seeds() []c06Case {
 	s300 := bPattern(300)
 	s70k := bPattern(66000)
 	// hand-written
-	add(s300, cat(bVarint(300), bVarint(10), []byte{0x90, 10}))                                  // copy off 0 size 10
-	add(s300, cat(bVarint(300), bVarint(300), []byte{0xb0, 0x2c, 0x01}))                         // copy whole, 2 size bytes
-	add(s300, cat(bVarint(300), bVarint(7), []byte{0x91, 0x05, 0x04, 0x03, 'x', 'y', 'z'}))      // copy + insert
-	add(s300, cat(bVarint(300), bVarint(5), []byte{0x02, 'h', 'i', 0x93, 0x29, 0x01, 0x03}))     // insert + copy with 2 offset bytes (off 0x129)
-	add(s300, cat(bVarint(300), bVarint(3), []byte{0xff, 1, 0, 0, 0, 3, 0, 0}))                  // all 7 parameter bytes
-	add(s70k, cat(bVarint(66000), bVarint(0x10000), []byte{0x80}))                               // size 0 => 0x10000
-	add(s70k, cat(bVarint(66000), bVarint(0x10000), []byte{0xc0, 0x01}))                         // size byte 3 = 1 => 0x10000
-	add(s70k, cat(bVarint(66000), bVarint(0x10001), []byte{0x01, 'q', 0x80}))                    // insert + 64k copy
-	add(s70k, cat(bVarint(66000), bVarint(720), []byte{0xb3, 0x00, 0xff, 0xd0, 0x02}))           // copy off 0xff00 size 0x2d0 (to the very end)
-	add(bPattern(1), cat(bVarint(1), bVarint(2), []byte{0x90, 1, 0x90, 1}))                      // two copies
-	add(s300, cat(bVarint(300), bVarint(30), []byte{0x91, 100, 10, 0x90, 10, 0x91, 20, 10}))     // copy, copy backwards, copy forwards
-	add(s300, cat(bVarint(300), bVarint(30), []byte{0x91, 100, 10, 0x90, 10, 0x91, 150, 10}))    // copy, copy backwards, copy far forwards
-	add([]byte{}, cat(bVarint(0), bVarint(3), []byte{0x03, 'a', 'b', 'c'}))                      // empty source
-	add(bPattern(5), cat(bVarint(5), bVarint(127), append([]byte{0x7f}, bPattern(127)...)))      // longest insert
+	add(s300, cat(bVarint(300), bVarint(10), []byte{0x90, 10}))                               // copy off 0 size 10
+	add(s300, cat(bVarint(300), bVarint(300), []byte{0xb0, 0x2c, 0x01}))                      // copy whole, 2 size bytes
+	add(s300, cat(bVarint(300), bVarint(7), []byte{0x91, 0x05, 0x04, 0x03, 'x', 'y', 'z'}))   // copy + insert
+	add(s300, cat(bVarint(300), bVarint(5), []byte{0x02, 'h', 'i', 0x93, 0x29, 0x01, 0x03}))  // insert + copy with 2 offset bytes (off 0x129)
+	add(s300, cat(bVarint(300), bVarint(3), []byte{0xff, 1, 0, 0, 0, 3, 0, 0}))               // all 7 parameter bytes
+	add(s70k, cat(bVarint(66000), bVarint(0x10000), []byte{0x80}))                            // size 0 => 0x10000
+	add(s70k, cat(bVarint(66000), bVarint(0x10000), []byte{0xc0, 0x01}))                      // size byte 3 = 1 => 0x10000
+	add(s70k, cat(bVarint(66000), bVarint(0x10001), []byte{0x01, 'q', 0x80}))                 // insert + 64k copy
+	add(s70k, cat(bVarint(66000), bVarint(720), []byte{0xb3, 0x00, 0xff, 0xd0, 0x02}))        // copy off 0xff00 size 0x2d0 (to the very end)
+	add(bPattern(1), cat(bVarint(1), bVarint(2), []byte{0x90, 1, 0x90, 1}))                   // two copies
+	add(s300, cat(bVarint(300), bVarint(30), []byte{0x91, 100, 10, 0x90, 10, 0x91, 20, 10}))  // copy, copy backwards, copy forwards
+	add(s300, cat(bVarint(300), bVarint(30), []byte{0x91, 100, 10, 0x90, 10, 0x91, 150, 10})) // copy, copy backwards, copy far forwards
+	add([]byte{}, cat(bVarint(0), bVarint(3), []byte{0x03, 'a', 'b', 'c'}))                   // empty source
+	add(bPattern(5), cat(bVarint(5), bVarint(127), append([]byte{0x7f}, bPattern(127)...)))   // longest insert
 	// non-canonical size varints: 9 bytes (the longest that cannot overflow 64 bits)
 	pad := func(n uint64, l int) []byte {
 		v := bVarint(n)
@@ -796,7 +796,7 @@ func runC06(c *fw.Ctx) {
 	c.SetRule("(b) every delta byte stream up to delta_stream_max_len over a 12-byte alphabet, applied to the pattern source whose length is the one the stream declares (so the body is reached), to a source one byte longer (streams up to the shorter parser bound, all appliers) and, for the buffer appliers, to 5 fixed mismatching sources; plus every truncation / one-byte substitution / junk suffix of 20 valid deltas (incl. 64 KiB copies); each run through PatchDelta, ApplyDelta, ReaderFromDelta and Parser.Parse (seekable, stream, memory storage; filesystem storage up to the shorter bound) and compared with a transcription of git's patch_delta; (a) DiffDelta on all pairs over {a,b} up to diffdelta_ab_max_len bytes (insert-only deltas), block strings and 64 KiB straddles, applied back by every applier and by real git. A case is non-trivial when the declared source size matches; distinct = (model verdict or operation shape of the accepted delta). The transcription is replayed against real git (fsck over a pack with a hand-written index: one process for all streams up to the conformance length; index-pack/unpack-objects/cat-file on all accepted ones; one index-pack or unpack-objects process per stream up to length 2 and per hand-written seed).")
 	c.Assume("git 2.39.5 is the reference; delta buffers handed to patch_delta are NUL-terminated (xmallocz), as in index-pack, unpack-objects and packfile.c")
 	c.Assume("index-pack is run without --strict in the conformance step because --strict rejects a pack whose delta result equals its base ('appears twice'), which is not a property of the delta")
-	c.Assume("streams whose size varint overflows 64 bits are not replayed on real git either: it dies (size_t overflow) instead of failing the one object");
+	c.Assume("streams whose size varint overflows 64 bits are not replayed on real git either: it dies (size_t overflow) instead of failing the one object")
 	c.Assume("size varints longer than 9 bytes are outside the enumerated space (except as one-byte mutations of the 9-byte seeds); deltas declaring a target above 64 MiB are not replayed on real git (it dies allocating the buffer, machine dependent) but are still judged by the transcription")
 
 	total := fw.CountStrings(len(c06Sigma), maxLen)
